@@ -9,34 +9,148 @@ From CBI Require Import Lib.Res Model.C01 Spec.C01 Model.C04 Spec.C04 Proofs.C01
 Import ListNotations.
 Local Open Scope list_scope.
 
-(* ---------- the C04 model is the C15 model of a world without aliases ---------- *)
-Section IdWorld.
+(* ---------- lexical normalisation (os.path.abspath, Model/C04.v) ---------- *)
+Lemma norm_aux_plain p : forall acc, Forall (fun c => plain c = true) p -> norm_aux acc p = rev acc ++ p.
+Proof.
+  induction p as [|c r IH]; intros acc H; cbn [norm_aux]; [rewrite app_nil_r; reflexivity|].
+  inversion H as [|x l Hc Hr]; subst. unfold plain, is_dot, is_dotdot in Hc.
+  apply andb_true_iff in Hc. destruct Hc as [H1 H2]. apply negb_true_iff in H1, H2. rewrite H1, H2.
+  rewrite IH by exact Hr. cbn [rev]. rewrite <- app_assoc. reflexivity.
+Qed.
+Lemma norm_plain p : Forall (fun c => plain c = true) p -> norm p = p.
+Proof. intros H. unfold norm. rewrite norm_aux_plain by exact H. reflexivity. Qed.
+
+Lemma real_from_plain root rest : forall acc, real_from root acc rest = true -> Forall (fun c => plain c = true) rest.
+Proof.
+  induction rest as [|c r IH]; intros acc H; [constructor|]. cbn in H.
+  apply andb_true_iff in H. destruct H as [H Hr]. apply andb_true_iff in H. destruct H as [Hp _].
+  constructor; [exact Hp|eapply IH; exact Hr].
+Qed.
+(* a real path has no dot segments: lexical normalisation leaves it alone *)
+Lemma norm_real root p : is_real root p = true -> norm p = p.
+Proof. intros H. apply norm_plain. eapply real_from_plain. exact H. Qed.
+
+(* ---------- the C04 model is the C15 model of the world without links, where
+   realpath is lexical normalisation ---------- *)
+Section NormWorld.
 Variable fs : fsys.
 Hypothesis Hfs : fs_structured fs.
-Let idp : path -> path := fun p => p.
+(* the list names its files by normalised paths *)
+Hypothesis Hnormal : forall p ls, fs_get fs p = Some ls -> norm p = p.
 
-(* with rp = identity and getf = fs_get the C15 model IS the C04 model (by computation) *)
-Lemma run_tu_id_M fuel e : run_tu_A idp (fs_get fs) fuel e = run_tu_M fs fuel e.
-Proof. reflexivity. Qed.
+Lemma find_include_norm k p : find_include_A norm (fs_get fs) k p = find_include fs k p.
+Proof. destruct k as [[name this] angle]. reflexivity. Qed.
 
-(* whenever the reference preprocessor accepts the configuration, the alias-free C15 model
-   (if it succeeds) records what the reference records *)
-Lemma analyse_id_S fuel c : forall msS ms,
-  analyse_S fs fuel c = Ok msS -> analyse idp (fs_get fs) fuel c = Ok ms -> ms = msS.
+Lemma found_normal k p p1 f : find_include fs k p = (p1, Some f) -> memo_ok fs p -> norm f = f.
 Proof.
-  induction c as [|[pl e] r IH]; intros msS ms; cbn [analyse_S analyse].
+  intros E Hm. destruct (find_include_spec fs k p p1 (Some f) Hm E) as (Hs & _ & _).
+  symmetry in Hs. unfold search in Hs. apply find_some in Hs. destruct Hs as [_ Hf].
+  unfold isfile in Hf. destruct (fs_get fs f) as [ls|] eqn:Eg; [|discriminate]. eapply Hnormal; eauto.
+Qed.
+
+(* the memo invariant is needed to know that a memoised answer is a file of the list *)
+Definition MRel (p q : plat) : Prop := p = q /\ memo_ok fs p.
+
+Lemma exec_norm_M fuel : forall cur a p p', memo_ok fs p ->
+  exec_A norm (fs_get fs) fuel cur a p = Ok p' -> exec_M fs fuel cur a p = Ok p' /\ memo_ok fs p'.
+Proof.
+  induction fuel as [|n IH]; intros cur a p p' Hm; rewrite exec_A_unfold, exec_M_unfold.
+  - destruct a as [| |m v|m|tag s|];
+      [ intros H; inversion H; subst; split; [reflexivity|exact Hm]
+      | intros H; inversion H; subst; split; [reflexivity|exact Hm]
+      | intros H; inversion H; subst; split; [reflexivity|destruct (lookup m (defs p)); exact Hm]
+      | intros H; inversion H; subst; split; [reflexivity|exact Hm]
+      |
+      | intros H; inversion H; subst; split; [reflexivity|destruct (mem_path cur (once p)); exact Hm] ].
+    destruct (include_target s p) as [[angle name]|e]; [|discriminate].
+    rewrite find_include_norm. destruct (find_include fs (name, dirname cur, angle) p) as [p1 r] eqn:Ef.
+    destruct (find_include_spec fs _ _ _ _ Hm Ef) as (_ & Hm1 & _).
+    destruct r as [f|]; [|intros H; inversion H; subst; split; [reflexivity|exact Hm1]].
+    destruct (mem_path f (once p1)); [intros H; inversion H; subst; split; [reflexivity|exact Hm1]|discriminate].
+  - destruct a as [| |m v|m|tag s|];
+      [ intros H; inversion H; subst; split; [reflexivity|exact Hm]
+      | intros H; inversion H; subst; split; [reflexivity|exact Hm]
+      | intros H; inversion H; subst; split; [reflexivity|destruct (lookup m (defs p)); exact Hm]
+      | intros H; inversion H; subst; split; [reflexivity|exact Hm]
+      |
+      | intros H; inversion H; subst; split; [reflexivity|destruct (mem_path cur (once p)); exact Hm] ].
+    destruct (include_target s p) as [[angle name]|e]; [|discriminate].
+    rewrite find_include_norm. destruct (find_include fs (name, dirname cur, angle) p) as [p1 r] eqn:Ef.
+    destruct (find_include_spec fs _ _ _ _ Hm Ef) as (_ & Hm1 & _).
+    destruct r as [f|]; [|intros H; inversion H; subst; split; [reflexivity|exact Hm1]].
+    rewrite (found_normal _ _ _ _ Ef Hm).
+    destruct (mem_path f (once p1)); [intros H; inversion H; subst; split; [reflexivity|exact Hm1]|].
+    destruct (fs_get fs f) as [ls|] eqn:Eg; [|discriminate].
+    destruct (Hfs f ls Eg) as (its & ->). rewrite !attribution. intros H.
+    destruct (run_S_sim plat plat act cond (mark_in f) (mark_in f) (exec_A norm (fs_get fs) n f) (exec_M fs n f) ev ev MRel) with (ls := flats act cond its) (p := p1) (q := p1) (p' := p') as (q' & Hq & [<- Hmq]).
+    + intros id x y [<- Hx]. split; [reflexivity|]. intros k r. apply Hx.
+    + intros c x y b0 [<- _] Hev. exact Hev.
+    + intros a0 x y x' [<- Hx] Hex. destruct (IH f a0 x x' Hx Hex) as [H1 H2]. exists x'. split; [exact H1|split; [reflexivity|exact H2]].
+    + split; [reflexivity|exact Hm1].
+    + exact H.
+    + split; assumption.
+Qed.
+
+Lemma run_lines_norm_M fuel f ls p p' : memo_ok fs p -> (exists its, ls = flats act cond its) ->
+  run_M plat act cond (mark_in f) (exec_A norm (fs_get fs) fuel f) ev ls p = Ok p' ->
+  run_M plat act cond (mark_in f) (exec_M fs fuel f) ev ls p = Ok p' /\ memo_ok fs p'.
+Proof.
+  intros Hm (its & ->). rewrite !attribution. intros H.
+  destruct (run_S_sim plat plat act cond (mark_in f) (mark_in f) (exec_A norm (fs_get fs) fuel f) (exec_M fs fuel f) ev ev MRel) with (ls := flats act cond its) (p := p) (q := p) (p' := p') as (q' & Hq & [<- Hmq]).
+  - intros id x y [<- Hx]. split; [reflexivity|]. intros k r. apply Hx.
+  - intros c x y b0 [<- _] Hev. exact Hev.
+  - intros a0 x y x' [<- Hx] Hex. destruct (exec_norm_M fuel f a0 x x' Hx Hex) as [H1 H2]. exists x'. split; [exact H1|split; [reflexivity|exact H2]].
+  - split; [reflexivity|exact Hm].
+  - exact H.
+  - split; assumption.
+Qed.
+
+Lemma run_file_norm_M fuel f p p' : norm f = f -> memo_ok fs p ->
+  run_file_A norm (fs_get fs) fuel f p = Ok p' -> run_file_M fs fuel f p = Ok p' /\ memo_ok fs p'.
+Proof.
+  unfold run_file_A, run_file_M. intros -> Hm. destruct (fs_get fs f) as [ls|] eqn:Eg; [|discriminate].
+  apply run_lines_norm_M; [exact Hm|exact (Hfs f ls Eg)].
+Qed.
+
+Lemma forced_norm_M fuel this incs : forall p p', memo_ok fs p ->
+  forced_A norm (fs_get fs) fuel this incs p = Ok p' -> forced_M fs fuel this incs p = Ok p' /\ memo_ok fs p'.
+Proof.
+  induction incs as [|n r IH]; intros p p' Hm; cbn [forced_A forced_M]; [intros H; inversion H; subst; auto|].
+  rewrite find_include_norm. destruct (find_include fs (n, this, false) p) as [p1 res] eqn:Ef.
+  destruct (find_include_spec fs _ _ _ _ Hm Ef) as (_ & Hm1 & _).
+  destruct res as [f|]; [|apply IH; exact Hm1].
+  destruct (run_file_A norm (fs_get fs) fuel f p1) as [p2|e] eqn:E; [|discriminate].
+  destruct (run_file_norm_M _ _ _ _ (found_normal _ _ _ _ Ef Hm) Hm1 E) as [-> Hm2]. apply IH. exact Hm2.
+Qed.
+
+Lemma run_tu_norm_M fuel e r : norm (e_file e) = e_file e ->
+  run_tu_A norm (fs_get fs) fuel e = Ok r -> run_tu_M fs fuel e = Ok r.
+Proof.
+  intros Hn. unfold run_tu_A, run_tu_M. rewrite Hn.
+  destruct (forced_A norm (fs_get fs) fuel (dirname (e_file e)) (e_incs e) (fresh e)) as [p|x] eqn:E; [|discriminate].
+  assert (Hm0 : memo_ok fs (fresh e)) by (intros k r0; cbn; discriminate).
+  destruct (forced_norm_M _ _ _ _ _ Hm0 E) as [-> Hm]. intros H.
+  destruct (run_file_norm_M _ _ _ _ Hn Hm H) as [H1 _]. exact H1.
+Qed.
+
+(* whenever the reference preprocessor accepts the configuration, the C15 model of the
+   link-free world (if it succeeds) records what the reference records *)
+Lemma analyse_norm_S fuel c : Forall (fun x => norm (e_file (snd x)) = e_file (snd x)) c -> forall msS ms,
+  analyse_S fs fuel c = Ok msS -> analyse norm (fs_get fs) fuel c = Ok ms -> ms = msS.
+Proof.
+  induction 1 as [|[pl e] r Hn _ IH]; intros msS ms; cbn [analyse_S analyse].
   - intros H1 H2; inversion H1; inversion H2; reflexivity.
-  - destruct (run_tu_S fs fuel e) as [rS|x] eqn:ES; [|discriminate].
+  - cbn [snd] in Hn. destruct (run_tu_S fs fuel e) as [rS|x] eqn:ES; [|discriminate].
     destruct (analyse_S fs fuel r) as [mS|x] eqn:EA; [|discriminate].
-    destruct (run_tu_A idp (fs_get fs) fuel e) as [rA|x] eqn:EM; [|discriminate].
-    destruct (analyse idp (fs_get fs) fuel r) as [mA|x] eqn:EB; [|discriminate].
+    destruct (run_tu_A norm (fs_get fs) fuel e) as [rA|x] eqn:EM; [|discriminate].
+    destruct (analyse norm (fs_get fs) fuel r) as [mA|x] eqn:EB; [|discriminate].
     intros H1 H2; inversion H1; inversion H2; subst.
     destruct (run_tu_sim fs Hfs fuel e rS ES) as (rM & EM' & (Ha & _)).
-    rewrite run_tu_id_M in EM. rewrite EM in EM'. inversion EM'; subst.
+    rewrite (run_tu_norm_M _ _ _ Hn EM) in EM'. inversion EM'; subst.
     rewrite Ha, (IH mS mA eq_refl eq_refl). reflexivity.
 Qed.
 
-End IdWorld.
+End NormWorld.
 
 (* ---------- from the link tree to the list of its regular files ---------- *)
 Section InstC.
@@ -47,7 +161,9 @@ Hypothesis Hwf : wf root.
 (* cfs lists exactly the regular files of the tree, under their real paths *)
 Hypothesis Hcfs : forall p, is_real root p = true -> fs_get cfs p = getf_i root tab p.
 Hypothesis Hnames : tab_names_ok root tab.
-Let idp : path -> path := fun p => p.
+(* ... and nothing else *)
+Hypothesis Hcfs_real : forall p ls, fs_get cfs p = Some ls -> is_real root p = true.
+Let idp : path -> path := norm.
 
 Lemma searchC ds1 ds2 n1 n2 cur a :
   Forall2 (DRb root) ds1 ds2 -> NRb root n1 n2 -> GoodB root cur ->
@@ -68,7 +184,9 @@ Proof.
   assert (E1 : candidates_A (rp_i root) ds1 (n1, dirname cur, a) = map (fun d => d ++ n1) L).
   { unfold candidates_A. fold L. apply map_ext_in. intros d Hin. rewrite Forall_forall in HL.
     apply rp_real. apply real_join; auto. }
-  assert (E2 : candidates_A idp ds1 (n1, dirname cur, a) = map (fun d => d ++ n1) L) by reflexivity.
+  assert (E2 : candidates_A idp ds1 (n1, dirname cur, a) = map (fun d => d ++ n1) L).
+  { unfold candidates_A. fold L. apply map_ext_in. intros d Hin. rewrite Forall_forall in HL.
+    apply (norm_real root). apply real_join; auto. }
   rewrite E1, E2.
   assert (Hall : forall x, In x (map (fun d => d ++ n1) L) -> is_real root x = true).
   { intros x Hx. apply in_map_iff in Hx. destruct Hx as (d & <- & Hin). rewrite Forall_forall in HL. apply real_join; auto. }
@@ -76,7 +194,7 @@ Proof.
              (fun x Hx => f_equal (fun o => match o with Some _ => true | None => false end) (Hcfs x (Hall x Hx)))).
   destruct (find (isfile_A (getf_i root tab)) (map (fun d => d ++ n1) L)) as [f|] eqn:Ef; [|exact I].
   destruct (find_some _ _ Ef) as [Hin _]. pose proof (Hall f Hin) as Hr.
-  split; [reflexivity|]. rewrite (rp_real root f Hr). split; [reflexivity|exact Hr].
+  split; [reflexivity|]. rewrite (rp_real root f Hr). unfold idp. rewrite (norm_real root f Hr). split; [reflexivity|exact Hr].
 Qed.
 
 Lemma contentC q : GoodB root q ->
@@ -95,7 +213,7 @@ Qed.
 Lemma canon_cfg_relC c : canon_cfg root c -> cfg_rel (rp_i root) idp (NRb root) (DRb root) (GoodB root) c c.
 Proof.
   induction 1 as [|[pl e] l (Hf & Hd & Hv & Hi) _ IH]; constructor; [|exact IH]. cbn [fst snd] in *.
-  split; [reflexivity|]. unfold entry_rel. rewrite (rp_real root _ Hf).
+  split; [reflexivity|]. unfold entry_rel. rewrite (rp_real root _ Hf). unfold idp. rewrite (norm_real root _ Hf).
   split; [reflexivity|]. split; [exact Hf|]. split; [|split].
   - apply Forall2_diag with (P := fun d => is_real root d = true); [intros x Hx; split; auto|exact Hd].
   - apply Forall2_diag with (P := fun kv => val_ok root (snd kv)); [|exact Hv].
@@ -115,7 +233,8 @@ Proof.
   assert (H2 : analyse idp (fs_get cfs) fuel c = Ok ms).
   { apply (analyse_sim2 (rp_i root) idp (getf_i root tab) (fs_get cfs) (NRb root) (DRb root) (GoodB root)
              (getf_structured root tab Hst) Hfs searchC contentC fuel c c (canon_cfg_relC c Hc) ms H). }
-  apply (analyse_id_S cfs Hfs fuel c msS ms HS H2).
+  apply (analyse_norm_S cfs Hfs (fun p ls Hp => norm_real root p (Hcfs_real p ls Hp)) fuel c) with (msS := msS) (ms := ms); auto.
+  clear - Hc. induction Hc as [|[pl e] l (Hf & _) _ IH]; constructor; [apply (norm_real root); exact Hf|exact IH].
 Qed.
 
 End InstC.
@@ -186,14 +305,23 @@ Theorem attribution_is_reference (root : fnode) (tab_a tab_c : ctable) (cfs : fs
   tab_rel root tab_a tab_c (alldirs root) -> alias_cfg2 root tab_a (alldirs root) c_a c_c ->
   tab_names_ok root tab_c -> canon_cfg root c_c ->
   (forall p, is_real root p = true -> fs_get cfs p = getf_i root tab_c p) ->
+  (forall p ls, fs_get cfs p = Some ls -> is_real root p = true) ->
   Forall (fun fn => In (dirname (rp_i root fn)) (alldirs root)) members ->
   find_A (rp_i root) (getf_i root tab_a) fuel members c_a = Ok ms ->
   analyse_S cfs fuel c_c = Ok msS ->
   ms = msS.
 Proof.
-  intros Hwf Sa Sc Sf Ht Hc Hn Hcc Hcfs Hm H HS.
+  intros Hwf Sa Sc Sf Ht Hc Hn Hcc Hcfs Hcr Hm H HS.
   pose proof (find_alias_names root tab_a tab_c (alldirs root) Ht (file_dir_in_alldirs root tab_a Hwf)
                 fuel members c_a c_c ms Sa Sc Hc Hm H) as H1.
   apply find_A_analyse in H1.
   eapply (analyse_is_reference root tab_c cfs); eauto.
+Qed.
+
+(* the constructed list names only real paths *)
+Lemma fsys_of_real root tab : wf root -> forall p ls, fs_get (fsys_of root tab) p = Some ls -> is_real root p = true.
+Proof.
+  intros Hwf p ls Hg. apply fs_get_some_in, fsys_of_in in Hg. destruct Hg as [_ Hg].
+  unfold getf_i, entry_at in Hg. destruct (node_at root p) as [[k|kk|a t]|] eqn:En; try discriminate.
+  apply (node_at_real root Hwf p (File k) En). reflexivity.
 Qed.
